@@ -2,6 +2,7 @@ package engines
 
 import (
 	"bytes"
+	"encoding"
 	"encoding/binary"
 	"encoding/gob"
 	"errors"
@@ -41,7 +42,32 @@ const (
 	c18ReplayReaderErr = 5 // reader fails after the recorded bytes
 )
 
-var c18TargetNames = []string{"DecodeBytecodeFrom", "Bytecode.UnmarshalBinary", "DecodeObject", "DecodeObject(stream)"}
+var c18BaseTargetNames = []string{"DecodeBytecodeFrom", "Bytecode.UnmarshalBinary", "DecodeObject", "DecodeObject(stream)"}
+
+// typed receivers of the encoder package that a caller may use directly; targets c18TargetTyped+i
+const c18TargetTyped = 10
+
+var c18Typed = []struct {
+	name string
+	mk   func() encoding.BinaryUnmarshaler
+}{
+	{"SourceFileSet.UnmarshalBinary", func() encoding.BinaryUnmarshaler { return new(encoder.SourceFileSet) }},
+	{"SourceFile.UnmarshalBinary", func() encoding.BinaryUnmarshaler { return new(encoder.SourceFile) }},
+	{"CompiledFunction.UnmarshalBinary", func() encoding.BinaryUnmarshaler { return new(encoder.CompiledFunction) }},
+	{"Array.UnmarshalBinary", func() encoding.BinaryUnmarshaler { return new(encoder.Array) }},
+	{"Map.UnmarshalBinary", func() encoding.BinaryUnmarshaler { return new(encoder.Map) }},
+	{"SyncMap.UnmarshalBinary", func() encoding.BinaryUnmarshaler { return new(encoder.SyncMap) }},
+}
+
+func c18TargetName(t int) string {
+	if t >= c18TargetTyped && t < c18TargetTyped+len(c18Typed) {
+		return c18Typed[t-c18TargetTyped].name
+	}
+	if t >= 0 && t < len(c18BaseTargetNames) {
+		return c18BaseTargetNames[t]
+	}
+	return fmt.Sprint("target ", t)
+}
 
 var numRe = regexp.MustCompile(`[0-9]+`)
 var hexRe = regexp.MustCompile(`0x[0-9a-f]+`)
@@ -170,6 +196,18 @@ func c18Decode(target int, data []byte, mm *ugo.ModuleMap, rd io.Reader) (res c1
 			_ = bc.UnmarshalBinary(data)
 			res.second = false
 		}
+	default:
+		if target >= c18TargetTyped && target < c18TargetTyped+len(c18Typed) {
+			// a typed receiver, decoded into twice (history on the receiver: an error or a value again, never a panic)
+			x := c18Typed[target-c18TargetTyped].mk()
+			err := x.UnmarshalBinary(data)
+			res.err = err
+			res.ok = err == nil
+			res.alloc, res.allocSet = heapAllocs()-before, true
+			res.second = true
+			_ = x.UnmarshalBinary(data)
+			res.second = false
+		}
 	case c18TargetStream:
 		// an io.Reader that cannot report its length (file, connection, bufio): 7-byte reads
 		o, err := encoder.DecodeObject(&faultyReader{data: data, chunk: 7, failAt: -1})
@@ -214,10 +252,10 @@ func c18Check(rc *sim.RunCtx, target int, data []byte, mm *ugo.ModuleMap, what s
 	res := c18Decode(target, data, mm, nil)
 	if res.panic != "" {
 		rc.FailCase(caseTape(target, data), "decoder-panic", res.panic,
-			"%s panicked on %s (len %d): %s", c18TargetNames[target], what, len(data), res.pmsg)
+			"%s panicked on %s (len %d): %s", c18TargetName(target), what, len(data), res.pmsg)
 	} else if res.alloc > c18AllocBound(len(data)) {
-		rc.FailCase(caseTape(target, data), "alloc-out-of-proportion", "alloc:"+c18TargetNames[target],
-			"%s allocated %d bytes for a %d-byte input (%s); bound is 16 MiB + 256×len", c18TargetNames[target], res.alloc, len(data), what)
+		rc.FailCase(caseTape(target, data), "alloc-out-of-proportion", "alloc:"+c18TargetName(target),
+			"%s allocated %d bytes for a %d-byte input (%s); bound is 16 MiB + 256×len", c18TargetName(target), res.alloc, len(data), what)
 	}
 	if res.ok {
 		rc.Probe("corrupt-input-decoded-ok")
@@ -386,7 +424,7 @@ func c18Run(rc *sim.RunCtx) {
 	mm := newModuleMap(fixedModules)
 	if rc.T.IsReplay() {
 		// replay: the tape is the failing case itself: target, length, bytes
-		target := rc.T.Draw(c18NumTargets + 2)
+		target := rc.T.Draw(c18TargetTyped + len(c18Typed))
 		n := rc.T.Draw(1 << 20)
 		data := make([]byte, n)
 		for i := range data {
@@ -402,7 +440,7 @@ func c18Run(rc *sim.RunCtx) {
 		default:
 			c18Check(rc, target, data, mm, "replayed input")
 		}
-		rc.Decoded = map[string]any{"target": c18TargetNames[target], "input_hex": fmt.Sprintf("%x", data)}
+		rc.Decoded = map[string]any{"target": c18TargetName(target), "input_hex": fmt.Sprintf("%x", data)}
 		return
 	}
 	nProg, nSampled := c18Sizes(rc.Tier)
@@ -448,6 +486,38 @@ func c18Run(rc *sim.RunCtx) {
 		inputs = append(inputs, c18Input{"object:gob-and-syncmap", []int{c18TargetObject, c18TargetStream}, ob})
 	}
 
+	// typed receivers: the file set and its first file in full, the others (which DecodeObject reaches too) light
+	if bc.FileSet != nil {
+		if ob, err := (*encoder.SourceFileSet)(bc.FileSet).MarshalBinary(); err == nil && len(ob) < 800 {
+			inputs = append(inputs, c18Input{"typed:fileset", []int{c18TargetTyped + 0}, ob})
+		}
+		if len(bc.FileSet.Files) > 0 {
+			if ob, err := (*encoder.SourceFile)(bc.FileSet.Files[0]).MarshalBinary(); err == nil && len(ob) < 400 {
+				inputs = append(inputs, c18Input{"typed:file", []int{c18TargetTyped + 1}, ob})
+			}
+		}
+	}
+	var light []c18Input
+	if ob, err := (*encoder.CompiledFunction)(bc.Main).MarshalBinary(); err == nil {
+		light = append(light, c18Input{"typed:main", []int{c18TargetTyped + 2}, ob})
+	}
+	if ob, err := encoder.Array(bc.Constants).MarshalBinary(); err == nil {
+		light = append(light, c18Input{"typed:constants", []int{c18TargetTyped + 3}, ob})
+	}
+	if ob, err := encoder.Map(ugo.Map{"a": ugo.Int(1), "e": &ugo.Error{Name: "N", Message: "m"}, "s": ugo.Array{ugo.String("x")}}).MarshalBinary(); err == nil {
+		light = append(light, c18Input{"typed:map", []int{c18TargetTyped + 4}, ob})
+	}
+	if ob, err := (*encoder.SyncMap)(&ugo.SyncMap{Value: ugo.Map{"a": ugo.Int(1)}}).MarshalBinary(); err == nil {
+		light = append(light, c18Input{"typed:syncmap", []int{c18TargetTyped + 5}, ob})
+	}
+	for _, in := range light {
+		// valid input and every 3rd truncation
+		for t := len(in.data); t >= 0; t -= 3 {
+			c18Check(rc, in.target[0], in.data[:t], mm, fmt.Sprintf("%s truncated at %d", in.name, t))
+			rc.Fault("truncation")
+		}
+	}
+
 	// crafted inputs: type confusion (an object of another type where the format expects a particular one) and
 	// name confusion (a module name replaced by the name of a module of another kind)
 	crafted := c18Crafted(v2, bc)
@@ -470,8 +540,8 @@ func c18Run(rc *sim.RunCtx) {
 					rc.Probe("v1-downgrade-rejected")
 					continue
 				}
-				rc.FailCase(caseTape(tg, in.data), "valid-input-rejected", "valid-rejected:"+c18TargetNames[tg],
-					"valid %s encoding rejected by %s: panic=%q err=%v", in.name, c18TargetNames[tg], res.panic, res.err)
+				rc.FailCase(caseTape(tg, in.data), "valid-input-rejected", "valid-rejected:"+c18TargetName(tg),
+					"valid %s encoding rejected by %s: panic=%q err=%v", in.name, c18TargetName(tg), res.panic, res.err)
 			}
 		}
 	}
